@@ -4,6 +4,7 @@ from common import coq_options, coq_string
 import obs
 
 ID = "C04"
+ENV_RERUN = 40          # cases repeated from a cargo build-script environment (lib/runner.py with_build_env)
 REQUIRES = ["ObsCheck", "Agree", "C04Spec", "Truth"]
 THEOREM_REQUIRES = ["C04"]
 THEOREMS = ["C04_holds_bool", "C04_holds", "C04_holds_none"]
